@@ -520,6 +520,27 @@ func runC07Strings(o *Out) {
 			o.Violate("interpreter-"+res, join("as_location", hxs(s)), "")
 		}
 	}
+	// every pair of ranges over 1..6, ascending, descending, abutting or not, as a
+	// join, an order and under complements: coordinates out of order are data the
+	// reader must survive (it may reject them; it may not panic)
+	for a := 1; a <= 6; a++ {
+		for b := 1; b <= 6; b++ {
+			for c := 1; c <= 6; c++ {
+				for d := 1; d <= 6; d++ {
+					if o.Tier != "thorough" && (a+b+c+d)%3 != int(o.Seed%3) {
+						continue
+					}
+					for _, f := range []string{"join(%d..%d,%d..%d)", "join(complement(%d..%d),complement(%d..%d))", "order(<%d..>%d,join(%d..%d,9..10))", "complement(join(<%d..>%d,<%d..>%d,9))"} {
+						s := fmt.Sprintf(f, a, b, c, d)
+						res := o.Run("location-pairs", true, "as_location", hxs(s))
+						if res == "panic" || res == "hang" {
+							o.Violate("interpreter-"+res, join("as_location", hxs(s)), s)
+						}
+					}
+				}
+			}
+		}
+	}
 	dates := []string{"01-JAN-2000", "29-FEB-2004", "29-FEB-1900", "31-APR-2001", "1-Jan-1", "01-01-2000", "00-JAN-2000", "32-DEC-1999", "--", "1-JAN-99999999999999999999"}
 	for _, s := range strMutants(o, dates, n) {
 		o.Run("date", true, "as_date", hxs(s))
